@@ -450,12 +450,14 @@ func genFilter(rng *rand.Rand, depth int) string {
 		return s + ")"
 	case 2:
 		return "(!" + genFilter(rng, depth+1) + ")"
+	// (the four attribute-value assertions draw from one pool of values: filters that differ in nothing but their
+	// kind - (uid>=1000), (uid<=1000), (uid=1000), (uid~=1000) - occur within one run)
 	case 3:
-		return "(" + attr + ">=" + "5" + ")"
+		return "(" + attr + ">=" + val0(val) + ")"
 	case 4:
-		return "(" + attr + "<=" + "9" + ")"
+		return "(" + attr + "<=" + val0(val) + ")"
 	case 5:
-		return "(" + attr + "~=" + "al" + ")"
+		return "(" + attr + "~=" + val0(val) + ")"
 	case 6:
 		return "(" + attr + "=*)"
 	case 7:
